@@ -87,7 +87,7 @@ type World struct {
 	Funcs    map[int]*argmapper.Func
 	Specs    map[int]*FuncSpec
 	GenCalls int
-	MaxExecs int                  // runaway guard
+	MaxExecs int // runaway guard
 	// retained: for functions taking a pointer to their parameter struct, the
 	// pointer each execution received, with what was observed through it at
 	// that time. A callee may keep such a pointer (a constructor storing its
@@ -102,8 +102,16 @@ type World struct {
 	// FirstComplete).
 	RepeatOnFailure bool
 	FirstComplete   *Outcome
-	BodyHook func(fs *FuncSpec)   // optional: called at the start of every body (outside the lock)
-	OpTagOf  func() (gid, op int) // optional: goroutine/op attribution
+	// AliasProbe: RedefineCall hands Redefine a PREFIX of a longer option
+	// list. Before the redefined function is invoked, the rest of that list is
+	// filled with a second value (token +200) for every input the redefined
+	// function declares; Later is the whole list, meant for a direct call of
+	// the ORIGINAL function afterwards. Whatever the redefined function does
+	// when it is invoked, that list still holds what the caller put there.
+	AliasProbe bool
+	Later      []argmapper.Arg
+	BodyHook   func(fs *FuncSpec)   // optional: called at the start of every body (outside the lock)
+	OpTagOf    func() (gid, op int) // optional: goroutine/op attribution
 }
 
 type retainedArg struct {
@@ -734,6 +742,12 @@ func (w *World) Convert(typ int, args []argmapper.Arg) Outcome {
 // under the label the redefined function declares.
 func (w *World) RedefineCall(target *argmapper.Func, args []argmapper.Arg) (rf *argmapper.Func, redefErr error, redefPanic string, fresh []Input, o Outcome) {
 	var ro Outcome
+	const spare = 12
+	if w.AliasProbe {
+		guard := make([]argmapper.Arg, len(args), len(args)+spare)
+		copy(guard, args)
+		args = guard
+	}
 	Protect(&ro, func() {
 		rf, redefErr = target.Redefine(args...)
 	})
@@ -779,6 +793,18 @@ func (w *World) RedefineCall(target *argmapper.Func, args []argmapper.Arg) (rf *
 	}
 	w.mu.Unlock()
 	callArgs = append(callArgs, Quiet())
+	if w.AliasProbe && len(fresh)+1 <= spare {
+		later := args // shares its backing array with what Redefine was given
+		w.mu.Lock()
+		for _, in := range fresh {
+			in2 := in
+			in2.Tok = in.Tok + 200
+			w.Ledger[in2.Tok] = w.Ledger[in.Tok]
+			later = append(later, InputArg(in2))
+		}
+		w.mu.Unlock()
+		w.Later = append(later, Quiet())
+	}
 	if w.DeficientFirst && len(fresh) > 0 {
 		// first call it with its first input withheld: that call lacks an
 		// argument and must fail -- and must leave no trace in the next one
